@@ -23,7 +23,8 @@ RULE = ("a store is pre-populated through a writable backend by a random history
         "; rounds 7-9: a writable backend created from a configuration before the read-only one, calls nested into a null-runner cluster from another cluster's body"
         '; rounds 10-11: one configuration dictionary used with an explicit read_only=False and then alone, on-disk partition results under a read-only cluster'
         '; round 13: with-data metadata of a call memoized again, read through the read-only backend'
-        '; round 14: the read-only flag arriving as text from a quoted JSON template (six spellings)')
+        '; round 14: the read-only flag arriving as text from a quoted JSON template (six spellings)'
+        '; round 15: the same nested call made four times (twice in one batch) under null storage')
 ASSUMPTIONS = ["CPython audit events (open, os.mkdir, os.rename, os.remove, os.rmdir, shutil.rmtree, ...) are "
                "secondary evidence; the tree snapshot is the ground truth",
                "access times are not part of 'modified'"]
